@@ -447,6 +447,95 @@ def run_native(ctx, cli, lib, root, stats):
     return len(obs)
 
 
+def run_start_matrix(ctx, cli, lib, root, stats):
+    """the policy a manifest declares must be in force for EVERY way a program can be started:
+    entry .aelys / other extension / .aasm / assembled .avbc / compiled .avbc (in place, moved, bundled);
+    manifest as `<entry file name>.toml` or as aelys.toml (or embedded by `compile`);
+    denied capability => refused (E0407), tampered library => refused (E0408), nothing loaded, nothing called"""
+    lib_bytes = open(lib, "rb").read()
+    ok_ck = "%016x" % fnv1a(lib_bytes)
+    src_text = "needs sentry\nsentry.touch()\n"
+    entries = [  # (tag, entry file written, how the run target is produced)
+        ("source", "main.aelys", None), ("source-other-ext", "job.ae", None), ("aasm", "main.aasm", None),
+        ("avbc-assembled", "main.aasm", "assemble"), ("avbc-compiled", "main.aelys", "compile"),
+        ("avbc-compiled-moved", "main.aelys", "compile-move"), ("avbc-compiled-bundled-moved", "main.aelys", "compile-bundle-move"),
+    ]
+    n = 0
+    for tag, entry, how in entries:
+        for mloc in ("per-file", "directory"):
+            for policy in ("caps-denied", "checksum-tampered", "permitted"):
+                if policy == "checksum-tampered" and how == "compile-bundle-move":
+                    continue            # the library travels inside the file: there is nothing to tamper with afterwards
+                n += 1
+                d = os.path.join(root, f"start{n}")
+                shutil.rmtree(d, ignore_errors=True)
+                os.makedirs(d)
+                libp = os.path.join(d, "libsentry.so")
+                shutil.copy(lib, libp)
+                toml = "[module.sentry]\nkind = \"native\"\ncapabilities = [\"danger\"]\n" + \
+                       (f"checksum = \"{ok_ck}\"\n" if policy == "checksum-tampered" else "")
+                if how == "compile-bundle-move":
+                    toml += "\n[build]\nbundle_native_modules = true\n"
+                text = SENTRY_ASM if entry.endswith(".aasm") else src_text
+                open(os.path.join(d, entry), "w").write(text)
+                # the manifest the user wrote, next to the file he starts with
+                target = os.path.join(d, entry)
+                run_dir = d
+                steps = []
+                if how == "assemble":
+                    rc, out = vlib.sh([cli, "compile", target, "-o", os.path.join(d, "main.avbc")], timeout=60, cwd=d)
+                    steps.append("compile main.aasm -o main.avbc")
+                    if rc != 0:
+                        ctx.broken.append("start matrix: cannot assemble: " + out[-200:])
+                        continue
+                    target = os.path.join(d, "main.avbc")
+                mname = (os.path.basename(target) + ".toml") if mloc == "per-file" else "aelys.toml"
+                if how and how.startswith("compile"):
+                    mname = (entry + ".toml") if mloc == "per-file" else "aelys.toml"   # found by `compile`, embedded in the .avbc
+                open(os.path.join(d, mname), "w").write(toml)
+                if how and how.startswith("compile"):
+                    rc, out = vlib.sh([cli, "compile", target, "-o", os.path.join(d, "main.avbc")], timeout=120, cwd=d)
+                    steps.append(f"compile {entry} -o main.avbc   (manifest {mname})")
+                    if rc != 0:
+                        ctx.broken.append(f"start matrix: `compile` fails for {tag}/{mloc}/{policy}: " + out[-200:])
+                        continue
+                    target = os.path.join(d, "main.avbc")
+                    if "move" in how:
+                        run_dir = os.path.join(d, "elsewhere")
+                        os.makedirs(run_dir)
+                        shutil.move(target, os.path.join(run_dir, "main.avbc"))
+                        target = os.path.join(run_dir, "main.avbc")
+                        if how == "compile-move":
+                            shutil.move(libp, os.path.join(run_dir, "libsentry.so"))
+                            libp = os.path.join(run_dir, "libsentry.so")
+                        steps.append("mv main.avbc" + (" libsentry.so" if how == "compile-move" else "") + " elsewhere/   (no manifest there)")
+                if policy == "checksum-tampered":
+                    with open(libp, "ab") as f:
+                        f.write(b"\0tampered")
+                    steps.append("append 9 bytes to libsentry.so")
+                flags = ["--deny-caps=danger"] if policy == "caps-denied" else []
+                ctor, call = os.path.join(d, "ctor.flag"), os.path.join(d, "call.flag")
+                rc, out = vlib.sh([cli, "run"] + flags + [target], timeout=60, cwd=run_dir,
+                                  env={"C11_CTOR_SENTINEL": ctor, "C11_CALL_SENTINEL": call})
+                steps.append("run " + " ".join(flags + [os.path.relpath(target, d)]))
+                cls = stderr_class(rc, out)
+                loaded, called = os.path.exists(ctor), os.path.exists(call)
+                stats["start_runs"] = stats.get("start_runs", 0) + 1
+                stats["distinct"].add(("start", tag, mloc, policy))
+                ctx.cov.setdefault("start_matrix", []).append({"entry": tag, "manifest": mloc, "policy": policy, "outcome": cls, "loaded": loaded, "called": called})
+                want = {"caps-denied": "capability-denied", "checksum-tampered": "checksum-mismatch"}.get(policy)
+                if want:
+                    if loaded or called or cls != want:
+                        ctx.violation(f"manifest-policy-not-in-force:{tag}:{mloc}:{policy}",
+                                      f"entry {tag}, manifest as {mname} ({mloc}), {policy}: expected {want} and nothing loaded, got {cls}, "
+                                      f"library loaded={loaded}, export called={called}",
+                                      {"entry": tag, "manifest_file": mname, "manifest": toml, "policy": policy, "steps": steps, "flags": flags,
+                                       "outcome": cls, "loaded": loaded, "called": called, "output": out[-300:]})
+                elif not called:
+                    ctx.broken.append(f"start matrix: permitted control {tag}/{mloc} did not run the module ({cls}): the probe no longer works")
+                shutil.rmtree(d, ignore_errors=True)
+
+
 def run(ctx):
     ctx.level = "proof"
     ctx.cov["trusted_base"] = TRUSTED
@@ -600,6 +689,8 @@ def run(ctx):
                 ctx.broken.append("native probe library does not build against the tree's aelys-native crate")
             else:
                 total += run_native(ctx, cli, lib, root, stats)
+                run_start_matrix(ctx, cli, lib, root, stats)
+                total += stats.get("start_runs", 0)
         total += stats["cli_runs"]
         ctx.cov["evaluations"] = total
         ctx.cov["distinct_nontrivial"] = len(stats["distinct"]) + len(pd) + len(nd)
@@ -612,6 +703,8 @@ def run(ctx):
             "sentinel: all 8 subsets of {fs,net,exec} x 5-7 flag spellings (rotated) x 11 routes (needs module / alias / selected symbol / wildcard / "
             "no needs / REPL history / REPL history with alias after another import / user module that re-exports / file / native passed as a callback / native stored in a global and called later) x 18 gated natives "
             "(11 fs, 3 net, 4 exec) against a fresh scratch directory with a victim file and directory, a loopback listener and `touch sentinel`; "
+            "start matrix: 7 ways to start (source, source with another extension, .aasm, assembled .avbc, compiled .avbc in place / moved with its library / "
+            "bundled and moved) x manifest as `<entry file name>.toml` or aelys.toml x {capability denied, library tampered after the checksum was pinned, permitted control}; "
             "denied => outcome must be CapabilityDenied or an unknown-name error and the directory snapshot, the listener and the sentinel untouched; "
             "allowed => the effect must be seen (sentinel sensitivity). cli: hand-written .aasm and assembled .avbc naming fs::write_text / "
             "net::connect / sys::exec for 8 subsets x 3 spellings. native: 39 manifest/flag/route cases (top-level, dotted path / subdirectory, aliases, for every policy component) with a probe cdylib whose constructor and "
